@@ -19,7 +19,7 @@ CLAIMED = {
         note='Trusted: TLC, the TLA+ transcription of the rule text.  Look-ups combined with selection options '
              'are outside the statement.  For severities 0x01..0x0F either reading of "informational" is accepted '
              'in the serviceable test.',
-        technique='TLC model checking of Selection.tla (Impl vs Rule) + TLC-judged exhaustive sweep of the real considerPEL and CLI'),
+        technique='TLC model checking of Selection.tla (Impl vs Rule) + TLAPS proof of Impl vs Rule for every severity / flag word / option record + TLC-judged exhaustive sweep of the real considerPEL and CLI'),
 }
 
 CLAIMED['C05'] = dict(
